@@ -262,6 +262,10 @@ def fs_ops(rng):
 
 def flowspec_rule(rng):
     r = {}
+    if rng.random() < 0.05:
+        # a long rule: 200..800 octets, around and beyond the 240-octet boundary of the 1-/2-octet NLRI length form
+        n = rng.choice([100, 112, 116, 117, 118, 119, 120, 121, 122, 123, 124, 125, 126, 130, 200, 400])
+        return {1: prefix4(rng, 24), 5: '|'.join('=%d' % rng.choice([1, 6, 17, 80, 255]) for _ in range(n))}
     if rng.random() < 0.8:
         r[1] = prefix4(rng, rng.choice([0, 1, 7, 8, 9, 16, 17, 24, 25, 31, 32]))
     if rng.random() < 0.5:
